@@ -151,7 +151,7 @@ def model_classes(spec, ref):
     ub = spec.functions["utility"]["body"]
     if "0.05 * xp.log(" in ub:
         cl.append("utility_nan_where_infeasible")
-    if "nextdep_constraint" in spec.functions:
+    if any(f["args"] and f["args"][0].startswith("next_") for n, f in spec.functions.items() if n.endswith("_constraint")):
         cl.append("constraint_on_transition_output")
     if "budget_constraint" in spec.functions and "xp.minimum(" in spec.functions["budget_constraint"]["body"]:
         cl.append("lower_bound_constraint")
